@@ -1,0 +1,98 @@
+//go:build verif
+
+package pubsub
+
+// Exports for the X01 check (peer gater). Add-only: a constructor wrapper for a
+// stand-alone gater, a handle on the gater of a running router and a read-only
+// dump of its bookkeeping. Nothing here changes what the library does.
+
+import (
+	"context"
+	"log/slog"
+	"sort"
+
+	"github.com/libp2p/go-libp2p/core/peer"
+)
+
+// VerifPeerGater names the gater type; its exported methods (AcceptFrom and the
+// RawTracer callbacks) are the real ones.
+type VerifPeerGater = peerGater
+
+// VerifNewPeerGater builds a gater without a host; IPs come from getIP, the way
+// the package's own unit tests do it. The decay goroutine is the real one.
+func VerifNewPeerGater(ctx context.Context, params *PeerGaterParams, getIP func(peer.ID) string) *VerifPeerGater {
+	pg := newPeerGater(ctx, nil, params, slog.New(slog.DiscardHandler))
+	pg.Lock()
+	pg.getIP = getIP
+	pg.Unlock()
+	return pg
+}
+
+// VerifGater returns the gater of a gossipsub router, or nil.
+func (p *PubSub) VerifGater() *VerifPeerGater {
+	if gs, ok := p.rt.(*GossipSubRouter); ok {
+		return gs.gate
+	}
+	return nil
+}
+
+// VerifGaterObj is one peerGaterStats object.
+type VerifGaterObj struct {
+	IP                                 string    // key in ipStats, "" when no ipStats entry points to the object
+	Peers                              []peer.ID // peerStats keys that point to the object
+	Connected                          int
+	Expire                             int64 // UnixNano, 0 for the zero time
+	Deliver, Duplicate, Ignore, Reject float64
+}
+
+// VerifGaterDump is a copy of the gater's bookkeeping, object identity included.
+type VerifGaterDump struct {
+	Validate, Throttle float64
+	LastThrottle       int64 // UnixNano, 0 for the zero time
+	Objs               []VerifGaterObj
+}
+
+// VerifDump copies the gater's state under its lock.
+func (pg *peerGater) VerifDump() VerifGaterDump {
+	pg.Lock()
+	defer pg.Unlock()
+	d := VerifGaterDump{Validate: pg.validate, Throttle: pg.throttle}
+	if !pg.lastThrottle.IsZero() {
+		d.LastThrottle = pg.lastThrottle.UnixNano()
+	}
+	idx := make(map[*peerGaterStats]int)
+	get := func(st *peerGaterStats) int {
+		i, ok := idx[st]
+		if !ok {
+			i = len(d.Objs)
+			idx[st] = i
+			o := VerifGaterObj{Connected: st.connected, Deliver: st.deliver, Duplicate: st.duplicate, Ignore: st.ignore, Reject: st.reject}
+			if !st.expire.IsZero() {
+				o.Expire = st.expire.UnixNano()
+			}
+			d.Objs = append(d.Objs, o)
+		}
+		return i
+	}
+	ips := make([]string, 0, len(pg.ipStats))
+	for ip := range pg.ipStats {
+		ips = append(ips, ip)
+	}
+	sort.Strings(ips)
+	for _, ip := range ips {
+		i := get(pg.ipStats[ip])
+		if d.Objs[i].IP == "" {
+			d.Objs[i].IP = ip
+		}
+	}
+	pids := make([]peer.ID, 0, len(pg.peerStats))
+	for p := range pg.peerStats {
+		pids = append(pids, p)
+	}
+	sort.Slice(pids, func(i, j int) bool { return pids[i] < pids[j] })
+	for _, p := range pids {
+		i := get(pg.peerStats[p])
+		d.Objs[i].Peers = append(d.Objs[i].Peers, p)
+	}
+	return d
+}
